@@ -30,7 +30,7 @@ fn hist_opts(prop: &str, rng: &mut Rng, thorough: bool) -> GenOpts {
     let mut o = GenOpts::default();
     o.max_steps = if thorough { 10 } else { 8 };
     o.effects = true;
-    o.discovers = matches!(prop, "C09" | "C02" | "C03" | "C07" | "C08");
+    o.discovers = matches!(prop, "C09" | "C02" | "C03" | "C07" | "C08") || (prop == "C17" && rng.chance(1, 2));
     if prop == "C09" {
         o.phony = rng.chance(1, 2);
     }
@@ -726,6 +726,10 @@ fn history_case(ctx: &Ctx, dir: &std::path::Path, case: u64, seed: u64, rep: &mu
     let mut world = World::new(dir.to_path_buf(), proj);
     world.next_gens = gens;
     world.init_sources(&mut rng);
+    if prop == "C17" && rng.chance(1, 3) {
+        // the CMake layout: the generator rewrites an included file along with the manifest
+        world.ropts.split_include = Some("rules.ninja".into());
+    }
     world.write_manifest();
 
     let mut hist = Hist { ops: vec![], builds: 0, edits_between: false, sig: fnv(b"hist") };
@@ -842,6 +846,26 @@ fn history_case(ctx: &Ctx, dir: &std::path::Path, case: u64, seed: u64, rep: &mu
 pub fn make_generations(proj: &mut Project, rng: &mut Rng) -> Vec<Project> {
     proj.sources.push("gen.in".into());
     proj.quiet_generator = rng.chance(1, 3);
+    // a generator that reports what it read (GN style: depfile = build.ninja.d); the list changes,
+    // and sometimes shrinks to nothing, from one generation to the next
+    let gen_discovers = rng.chance(1, 2);
+    if gen_discovers {
+        proj.sources.push("gen.h".into());
+    }
+    let gen_reads = |rng: &mut Rng, proj: &Project| -> Vec<String> {
+        match rng.below(3) {
+            0 => vec![],
+            1 => vec!["gen.h".to_string()],
+            _ => {
+                let mut v = vec!["gen.h".to_string()];
+                if let Some(s) = proj.sources.iter().find(|s| *s != "gen.h" && *s != "gen.in") {
+                    v.push(s.clone());
+                }
+                v
+            }
+        }
+    };
+    let first_reads = if gen_discovers { gen_reads(rng, proj) } else { vec![] };
     let mut ins = vec!["gen.in".to_string()];
     if rng.chance(1, 3) {
         if let Some(s) = proj.sources.first().cloned() {
@@ -878,8 +902,8 @@ pub fn make_generations(proj: &mut Project, rng: &mut Rng) -> Vec<Project> {
         msvc: false,
         desc: None,
         effect: Effect::Generator,
-        extra_reads: vec![],
-        discovers: false,
+        extra_reads: first_reads,
+        discovers: gen_discovers,
     });
     let mut gens = Vec::new();
     let mut cur = proj.clone();
@@ -945,6 +969,12 @@ pub fn make_generations(proj: &mut Project, rng: &mut Rng) -> Vec<Project> {
                     }
                 }
                 _ => {}
+            }
+        }
+        if gen_discovers {
+            let r = gen_reads(rng, &next);
+            if let Some(gi) = next.step_index("gen") {
+                next.steps[gi].extra_reads = r;
             }
         }
         gens.push(next.clone());
